@@ -695,7 +695,7 @@ func (p *c20) reExec(r *core.CaseResult, i int) {
 
 func (p *c20) Meta() core.Meta {
 	return core.Meta{
-		Rule:        "explicit-state search over the shared variable map: one case per first select list (every sequence of 1..3 operations (quick: length 3 only over the first 8) over {SETVAR(k1,1), SETVAR(k1,a), SETVAR(K2,'x'), GETVAR(k1), GETVAR(K2), SETVAR(k1,GETVAR(K2)), SETVAR(k1,'1'), (SELECT SETVAR(k1,7), 1 AS one FROM dual), SETVAR(k1,ARRAY(a)), GETVAR('k1.K2'), SETVAR(K2,a) AS alias, SETVAR(7,a), GETVAR(7)}) run on 4 tables (0-3 rows) with/without WHERE from 3 initial maps; every distinct reached map is expanded breadth-first by every follow-up query (sequences of <= 2 operations x tables x WHERE) to depth 2 (thorough 3); a successor is the shortest path replayed on a fresh map plus one query; every step is compared with a sequential register model (rows, absence of SETVAR columns, caller's map); every first query that reads is also executed, followed by another query and a write by the caller on the same map, and then executed again as the same Query object. Failure family: every select list of <= 2 plain operations with a RAISE_WHEN(a = x, 'boom') at every position, firing on every row or on none, every operation evaluated immediately or deferred with AWAIT, on 3 tables (the multi-row ones also given as arrays of arrays) from 3 initial maps: the query fails iff the model's evaluation reaches a firing RAISE_WHEN, the caller's map holds exactly the writes evaluated before it, and a later query reads them. Concurrent family: 3 queries whose select list runs ASYNC / SPINASYNC calls that read (GetVarFunc) or write another key of (SetVarFunc) the same store next to the query's own SETVAR / GETVAR, under every schedule within 2 (thorough 3) preemptions: a GETVAR right after a SETVAR on the evaluating goroutine returns the value just written. non-trivial = the first query ran on a non-empty table and left a non-empty map",
+		Rule:        "explicit-state search over the shared variable map: one case per first select list (every sequence of 1..3 operations (quick: length 3 only over the first 8) over {SETVAR(k1,1), SETVAR(k1,a), SETVAR(K2,'x'), GETVAR(k1), GETVAR(K2), SETVAR(k1,GETVAR(K2)), SETVAR(k1,'1'), (SELECT SETVAR(k1,7), 1 AS one FROM dual), SETVAR(k1,ARRAY(a)), GETVAR('k1.K2'), SETVAR(K2,a) AS alias, SETVAR(7,a), GETVAR(7)}) run on 4 tables (0-3 rows) with/without WHERE from 3 initial maps; every distinct reached map is expanded breadth-first by every follow-up query (sequences of <= 2 operations x tables x WHERE) to depth 2 (thorough 3); a successor is the shortest path replayed on a fresh map plus one query; every step is compared with a sequential register model (rows, absence of SETVAR columns, caller's map); every first query that reads is also executed, followed by another query and a write by the caller on the same map, and then executed again as the same Query object. Failure family: every select list of <= 2 plain operations with a RAISE_WHEN(a = x, 'boom') at every position, firing on every row or on none, every operation evaluated immediately or deferred with AWAIT, on 3 tables (the multi-row ones also given as arrays of arrays) from 3 initial maps: the query fails iff the model's evaluation reaches a firing RAISE_WHEN, the caller's map holds exactly the writes evaluated before it, and a later query reads them. Concurrent family: 3 queries whose select list runs ASYNC / SPINASYNC calls that read (GetVarFunc) or write another key of (SetVarFunc) the same store next to the query's own SETVAR / GETVAR, under every schedule within 2 (thorough 3) preemptions: a GETVAR right after a SETVAR on the evaluating goroutine returns the value just written. non-trivial = the first query ran on a non-empty table and left a non-empty map; one numeric-keys case (every ordered pair of distinct keys over 12 numbers incl. fractions, negatives and 10^6, written and read back in the same and a later query; keys taken from a column)",
 		Assumptions: []string{"evaluation order = rows in source order, select-list items left to right (the property's statement)", "values stored are numbers and strings; keys are string literals", "evaluation stops at the first failing step: a SETVAR that comes after it in evaluation order (later item, later row; for AWAIT-deferred lists the same order, at the end of the query) is not evaluated and writes nothing"},
 		Bounds:      map[string]any{"first_lists": len(p.lists), "followup_queries": len(p.queries), "depth": p.depth},
 		Exhaustive:  true,
